@@ -174,10 +174,11 @@ class ProgGen(object):
 
     def __init__(self, rng, max_depth=4, max_nodes=40, value_depth=2, msg_styles=None, act_styles=None,
                  exc_pool=None, allow_remote=True, allow_tb=True, allow_typed=True, type_names=None,
-                 allow_cross=True, fail_p=0.3, remote_vias=("same", "thread"), allow_reenter=False, hostile=None, defer_p=0.0, early_finish_p=0.0, extra_styles=(), reseed_p=0.0, reserved_field_p=0.0):
+                 allow_cross=True, fail_p=0.3, remote_vias=("same", "thread"), allow_reenter=False, hostile=None, defer_p=0.0, early_finish_p=0.0, extra_styles=(), reseed_p=0.0, reserved_field_p=0.0, status_field_p=0.0):
         self.reseed_p = reseed_p  # share of body slots that re-seed the global random module with a fixed seed (programs do that)
         self.reserved_field_p = reserved_field_p  # share of untyped field sets that also carry a key named like eliot's own metadata
         self.allow_reenter = allow_reenter
+        self.status_field_p = status_field_p  # share of untyped messages carrying a user field named action_status
         self.early_finish_p = early_finish_p  # share of with-style actions that call finish() themselves at the end of the block
         self.extra_styles = tuple(extra_styles)  # e.g. "pre_created", "ctx_finish_inside"
         self.defer_p = defer_p  # share of continue_task hand-offs that are continued only after the program (parent finished)
@@ -231,6 +232,9 @@ class ProgGen(object):
         f = self.fields(typed=typed)
         t = rng.choice(self.type_names)
         node = {"k": "msg", "nid": self._nid(), "style": style, "type": (t + ":m") if t else "", "fields": f}
+        if not typed and style != "stdlib" and rng.random() < self.status_field_p:
+            # a plain message about some job's state: "action_status" is just a field name here (the message has no action_type)
+            f["action_status"] = rng.choice(["succeeded", "started", "failed", "paused", 3])
         if typed:
             defs = self.__dict__.setdefault("_mdefs", [])
             if defs and rng.random() < 0.5:
